@@ -435,9 +435,10 @@ package jobs
 //@   ensures $transformCalls == old($transformCalls) + 1
 
 //@ unit (*FullSyncPipeline).sync$1
-//@   prop C10 C08
+//@   prop C10 C08 C09
 //@   preserves SyncJobState.ID
 //@   ghost sinkOkG bool = false
+//@   ensures [C09,C08:a-batch-the-sink-rejected-fails-the-run-so-the-sync-is-never-completed-over-it] result == nil ==> len(entities) == 0 || sinkOkG
 //@   ensures [C10:stop-only-when-the-source-page-was-empty-or-untokenized] result == nil && old(keepReading) && !keepReading ==> len(entities) == 0 || tokenOf(continuationToken) == ""
 //@   ensures [C10:keep-reading-while-the-source-has-more] result == nil && old(keepReading) && len(entities) > 0 && tokenOf(continuationToken) != "" ==> keepReading
 //@   ensures [C10:transform-called-once-per-nonempty-batch] $transformCalls <= old($transformCalls) + 1
@@ -996,16 +997,28 @@ package jobs
 //@   modifies httpDatasetSink.isFirstBatch, httpDatasetSink.fullSyncID, httpDatasetSink.inFullSync
 //@   at call String#1
 //@     ghost newIdG := $result
+//@ unit jobs.handleHTTPError
+//@   prop C08 C09
+//@   modifies none
+//@   ensures [C08,C09:a-refused-request-is-reported-as-an-error] result != nil
 //@ unit (*httpDatasetSink).processEntities
-//@   prop C09
+//@   prop C09 C08 C04
+//@   ghost statusG int = 0
 //@   requires httpDatasetSink != nil && runner != nil
+//@   ensures [C08,C04:a-batch-counts-as-delivered-only-when-the-receiver-answered-200] result == nil ==> statusG == 200
+//@   at call Do#1
+//@     ghost statusG := $result0.StatusCode
 //@   at call Add#1 before
 //@     assert [C09:a-batch-sent-during-a-sync-carries-the-id-of-that-sync] httpDatasetSink.inFullSync && $arg1 == "universal-data-api-full-sync-id" && $arg2 == httpDatasetSink.fullSyncID
 //@   at call Add#2 before
 //@     assert [C09:the-first-batch-of-a-sync-and-only-that-one-carries-the-start-header] httpDatasetSink.inFullSync && httpDatasetSink.isFirstBatch && $arg1 == "universal-data-api-full-sync-start" && $arg2 == "true"
 //@ unit (*httpDatasetSink).endFullSync
-//@   prop C09
+//@   prop C09 C08
+//@   ghost statusG int = 0
 //@   requires httpDatasetSink != nil && runner != nil
+//@   ensures [C09,C08:the-sync-counts-as-completed-only-when-the-receiver-answered-200] result == nil ==> statusG == 200
+//@   at call Do#1
+//@     ghost statusG := $result0.StatusCode
 //@   at call Add#1 before
 //@     assert [C09:the-end-request-is-marked-as-the-end-of-a-sync] $arg1 == "universal-data-api-full-sync-end" && $arg2 == "true"
 //@   at call Add#2 before
@@ -1035,3 +1048,9 @@ package jobs
 //@   at call AssertPrefixMappingForExpansion#2 before
 //@     assert [C13:without-a-hash-the-expansion-is-cut-after-the-last-slash] uriExpansion + postfix == fullG && hasSuffix(uriExpansion, "/") && !contains(postfix, "/")
 
+// ---------------------------------------------------------------------------
+// C10: entities coming back from a context-aware HTTP transform keep their identity, content and deleted flag
+//@ unit jobs.convertEgdmEntityToServerEntity
+//@   prop C10
+//@   requires entity != nil
+//@   ensures [C10:an-entity-returned-by-an-external-transform-keeps-its-id-content-and-deleted-flag] result != nil && result.ID == entity.ID && result.IsDeleted == entity.IsDeleted && result.Properties == entity.Properties && result.References == entity.References
